@@ -780,6 +780,61 @@ func (tw *tokenWorld) endSession(ch *kernel.Chooser) string {
 	return desc
 }
 
+// exchangeUse: a token exchange that presents an access token as subject and, in half of the cases, another one as
+// actor (delegation). Success implies that both are live tokens of this provider (C08).
+func (tw *tokenWorld) exchangeUse(ch *kernel.Chooser) string {
+	w := tw.w
+	if !w.Caps.TokenExchange {
+		return "exchange: storage has no token-exchange capability"
+	}
+	var callers []string
+	for _, id := range honestClients {
+		if c := w.Store.Clients[id]; usableClient(w, id) && c.HasGrant(oidc.GrantTypeTokenExchange) && !c.Public() {
+			callers = append(callers, id)
+		}
+	}
+	subj := tw.pick(ch, false)
+	if len(callers) == 0 || subj == nil {
+		return "exchange: no caller or no token"
+	}
+	caller := callers[ch.Int(len(callers))]
+	stok, skind := subj.access, "genuine"
+	if ch.Bool(1, 6) {
+		stok, skind = tw.mangle(ch, subj.access)
+	}
+	form := url.Values{"grant_type": {string(oidc.GrantTypeTokenExchange)}, "subject_token": {stok}, "subject_token_type": {string(oidc.AccessTokenType)}, "requested_token_type": {string(oidc.AccessTokenType)}}
+	sid, _, _, sdec := w.DecodeAccess(stok)
+	slive := sdec && w.Store.TokenLive(sid) && (skind == "genuine" || stok == subj.access || strings.Count(subj.access, ".") != 2 || sameJWT(stok, subj.access))
+	var actor *grantedToken
+	alive := true
+	if ch.Bool(1, 2) {
+		actor = tw.pick(ch, false)
+		form.Set("actor_token", actor.access)
+		form.Set("actor_token_type", string(oidc.AccessTokenType))
+		aid, _, _, adec := w.DecodeAccess(actor.access)
+		alive = adec && w.Store.TokenLive(aid)
+	}
+	r := w.PostForm("/oauth/token", form, rightPresentation(w, caller).creds)
+	desc := fmt.Sprintf("exchange by %s: subject %s token of %s (live=%v) actor=%v (live=%v) -> %d", caller, skind, subj.client, slive, actor != nil, alive, statusOf(r))
+	if panicProbe(tw.o, r) || r.Err != nil {
+		return desc
+	}
+	if _, ok := isTokenSuccess(r); !ok {
+		return desc
+	}
+	tw.o.Probe("exchange-success")
+	if !slive {
+		tw.viol("C08", "dead-token-honoured", "exchange-subject", "%s: the exchange accepted a subject token that is not a live token of this provider", desc)
+	}
+	if actor != nil {
+		tw.o.Probe("exchange-with-actor-success")
+		if !alive {
+			tw.viol("C08", "dead-token-honoured", "exchange-actor", "%s: the exchange accepted an actor token that is not live", desc)
+		}
+	}
+	return desc + " TOKENS"
+}
+
 func (tw *tokenWorld) advance(ch *kernel.Chooser) string {
 	var d time.Duration
 	switch ch.Int(4) {
@@ -931,7 +986,7 @@ func runTokenWorld(t *testing.T, spec kernel.Spec, prop string, weights map[stri
 			f    func(*kernel.Chooser) string
 		}
 		ops := []op{{"obtain", tw.obtain}, {"refresh", tw.refresh}, {"userinfo", tw.userinfo}, {"introspect", tw.introspect},
-			{"revoke", tw.revoke}, {"end_session", tw.endSession}, {"advance", tw.advance}, {"other", tw.otherGrant}, {"code", tw.codeGrant}, {"race", tw.race}}
+			{"revoke", tw.revoke}, {"end_session", tw.endSession}, {"advance", tw.advance}, {"other", tw.otherGrant}, {"code", tw.codeGrant}, {"race", tw.race}, {"exchange", tw.exchangeUse}}
 		total := 0
 		for _, op := range ops {
 			total += weights[op.name]
@@ -991,7 +1046,7 @@ func RunC07(t *testing.T, spec kernel.Spec) *kernel.Outcome {
 }
 
 func RunC08(t *testing.T, spec kernel.Spec) *kernel.Outcome {
-	o := runTokenWorld(t, spec, "C08", map[string]int{"obtain": 3, "refresh": 1, "userinfo": 5, "introspect": 5, "revoke": 4, "end_session": 1, "advance": 2, "race": 4})
+	o := runTokenWorld(t, spec, "C08", map[string]int{"obtain": 3, "refresh": 1, "userinfo": 5, "introspect": 5, "revoke": 4, "end_session": 1, "advance": 2, "race": 4, "exchange": 4})
 	o.Nontrivial = o.Probes["userinfo-200"]+o.Probes["introspect-active"] > 0 && o.Probes["revocation-effective"]+o.Probes["logout"] > 0
 	return o
 }
